@@ -42,6 +42,9 @@ void check_C02(Src &s, Ctx &ctx) {
     ctx.log(sp.text() + (exotic >= 0 ? std::string(" exotic=") + EXOTICS[exotic].name : std::string("")));
     if (sp.outs > 0) ctx.log(st.vm.text());
 
+    // the grid under test is, for one case in six, a copy / a restored file of the grid that was made (grids reach user code that way):
+    // copy construction, assignment, copyGrid or a write/read round trip; the history below then runs on the copy
+    if (s.chance(1, 6)) { Op cp; cp.kind = s.pick(2) ? OP_COPY : OP_ROUNDTRIP; cp.variant = s.pick(4); apply_op(st, cp); ctx.log(st.trace.back()); ctx.label("via-copy"); }
     // ---- history: load, optionally one update / refinement (general lower sets), optionally load again (otherwise the proposal stays pending)
     bool refined = false;
     if (sp.outs > 0) {
